@@ -66,6 +66,29 @@ def render(rec):
         if c["pos"] == "impl":
             return f"{use}pub struct X;\npub trait TI<T>: 'static {{ }}\n#[::entrait::entrait]\nimpl TI for X {{\n    fn {f}<D>(deps: &D, {pt}) {{ }}\n}}\n"
         return f"{use}#[::entrait::entrait]\ntrait Tr {{\n    fn {f}(&self, {pt});\n}}\n"
+    if k == "gen":
+        gens, where, params = ["'a", "'b"], [], []
+        db = c["dbound"]
+        if db == "impl":
+            params.append("deps: &'a impl Sync")
+        else:
+            gens.append("D: Sync" if db == "inline" else "D")
+            params.append("deps: &'a D")
+            if db == "where":
+                where.append("D: Sync")
+        gens.append("U: IntoIterator")
+        params += ["u: U", "s: &'b str"]
+        where += {"none": [], "path": ["U: Clone"], "assoc": ["U::Item: Clone"], "tuple": ["(U,): Sized"],
+                  "hrtb": ["for<'x> &'x U: IntoIterator"], "life": ["'b: 'a"]}[c["pred"]]
+        w = (" where " + ", ".join(where)) if where else ""
+        f = f"fn g<{', '.join(gens)}>({', '.join(params)}){w} {{ let _ = (deps, u, s); }}"
+        if c["mode"] == "fn":
+            return f"#[::entrait::entrait(T)]\n{f}\n"
+        if c["mode"] == "mod":
+            return f"#[::entrait::entrait(T)]\nmod m {{\n    pub {f}\n}}\n"
+        # impl block: the delegation-target trait is the user's; its generics are the user's business, so no lifted parameter here
+        f = f.replace("U: IntoIterator", "U: IntoIterator + 'static")
+        return (f"pub struct X;\npub trait TI<T>: 'static {{ }}\n#[::entrait::entrait]\nimpl TI for X {{\n    {f}\n}}\n")
     raise vf.ToolError("unknown case kind " + k)
 
 
@@ -73,7 +96,7 @@ def main():
     chk = vf.Check("C15")
     thorough = vf.tier() == "thorough"
     cases, res = vf.mc_cases(chk, "MC_C15", cfg_edits={"MaxToks = 1": "MaxToks = 2"},
-                             actions=["ClassifyItem", "ParseAttr", "AnalyzeFnDeps", "TraitChecks", "FixParamIdents"], workers=12, heap="12g")
+                             actions=["ClassifyItem", "ParseAttr", "AnalyzeFnDeps", "TraitChecks", "FixParamIdents", "CollectGenerics"], workers=12, heap="12g")
     crate = vf.Crate(os.path.join(chk.work, "crate"), "c15cases", deps=["async-trait"])
     crate.prelude = PRELUDE
     for c in cases:
@@ -116,11 +139,12 @@ def main():
     chk.cov["distinct_nontrivial"] = sum(1 for e in events if e["obs"]["invoked"] and e["obs"]["outcome"] != "ok")
     chk.cov["not_invoked_by_rustc"] = sum(1 for e in events if not e["obs"]["invoked"])
     chk.cov["documented_misuse_cases"] = sum(1 for c in cases if c["fault"])
-    chk.cov["by_kind"] = {k: sum(1 for c in cases if c["c"]["kind"] == k) for k in ("attr", "item", "deps", "trait", "pat")}
+    chk.cov["by_kind"] = {k: sum(1 for c in cases if c["c"]["kind"] == k) for k in ("attr", "item", "deps", "trait", "pat", "gen")}
     chk.cov["rule"] = (f"option lists (well- and ill-formed) of <= 2 tokens x leads x trailing comma x 4 targets; 16 "
                        "non-supported item kinds; every dependency-parameter shape (13 bases x 6 wrappings) x fn/mod/impl x no_deps; "
                        "5 parameter patterns x 7 delegation kinds x 8 extra trait items; every pattern symbol of spec/Params.tla as a parameter of a fn / module fn / "
-                       "impl-block fn / trait method x {ordinary, would-be-generated, raw} function names; non-trivial = the macro was invoked and rejected or panicked")
+                       "impl-block fn / trait method x {ordinary, would-be-generated, raw} function names; 4 ways of bounding the dependency parameter x 6 kinds of "
+                       "further where-predicate x fn/mod/impl; non-trivial = the macro was invoked and rejected or panicked")
     chk.cov["exhaustive"] = True
     chk.cov["build_iterations"] = iters
     vf.report_drift(chk, drift, lambda d: f"{byid[d['case']]['c']} obs={ev[d['case']]['obs']['outcome']}:{ev[d['case']]['obs']['class']} '{ev[d['case']]['obs']['message'][:80]}' pred={byid[d['case']]['pred']}")
